@@ -726,9 +726,9 @@ theorem to_dyn_caller_independent (c1 c2 rrtkFeats : List String) (v : RefVarian
     toDynHasArmIn c1 rrtkFeats v = toDynHasArmIn c2 rrtkFeats v := by
   simp [toDynHasArmIn, Gen.toDynDefs, featOn]
 
-/-- exactly one definition of the implementing macro is compiled into each rrtk build -/
-theorem to_dyn_one_definition_per_build :
-    ∀ r ∈ rrtkBuilds, (Gen.toDynDefs.filter (fun d => itemCfgHolds r d.1)).length = 1 := by decide
+-- (that exactly ONE definition of the implementing macro is compiled into each rrtk build is a fact about how the macro is written today —
+--  one cfg-selected definition per feature tier — not a requirement: a chain of helper macros, each adding the arms of one tier, is just
+--  as good.  It lives in Thm/Lemmas/C17Snapshot.lean.  What IS required, `to_dyn_arms_cover` above, is insensitive to that structure.)
 
 example : toDynLists .rcRefCell = true ∧ variantExists ["alloc"] .rcRefCell = true ∧
     toDynHasArmIn [] ["alloc"] .rcRefCell = true := by decide
